@@ -1,7 +1,6 @@
 package tape
 
 import (
-	"io"
 	"os"
 	"sync"
 
@@ -93,27 +92,19 @@ func (m *TapeManager) openOrReuseReader() error {
 	m.readerLock.Lock()
 	defer m.readerLock.Unlock()
 
-	reopen := false
-	if m.reader == nil {
-		reopen = true
-	} else if _, err := m.reader.Seek(0, io.SeekCurrent); err != nil {
-		// File is closed
-		reopen = true
+	// A reader that is still open belongs to an operation that has not finished yet and will close it; wait for
+	// that operation to release the drive instead of sharing its descriptor
+	m.physicalLock.Lock()
+
+	r, rr, err := OpenTapeReadOnly(m.drive)
+	if err != nil {
+		return err
 	}
 
-	if reopen {
-		m.physicalLock.Lock()
+	m.reader = r
+	m.readerIsRegular = rr
 
-		r, rr, err := OpenTapeReadOnly(m.drive)
-		if err != nil {
-			return err
-		}
-
-		m.reader = r
-		m.readerIsRegular = rr
-
-		m.closer = r.Close
-	}
+	m.closer = r.Close
 
 	return nil
 }
